@@ -1,53 +1,5 @@
-import H264.GeneratedTables
-/-! Prototype for C20: theorems over the function graphs extracted from the running code -/
-namespace C20
-open Generated
-
-/-- all 256 header bytes: refused exactly when the top bit is set; otherwise ref_idc / type are bits 5–6 / 0–4 -/
-theorem header_bytes : hdr.length = 256 ∧ ∀ b : Fin 256,
-    (hdr.getD b.val (9,9,9)).1 = (if b.val ≥ 128 then 0 else 1) ∧
-    (b.val < 128 → (hdr.getD b.val (9,9,9)).2.1 = b.val / 32 % 4 ∧ (hdr.getD b.val (9,9,9)).2.2 = b.val % 32) := by
-  decide +kernel
-
-/-- unit type ids 0…31 are accepted, map to pairwise distinct values, each returning its own id; > 31 rejected -/
-theorem unit_types : unitType.length = 256 ∧
-    (∀ i : Fin 256, (unitType.getD i.val (9,9,9)).1 = (if i.val ≤ 31 then 1 else 0)) ∧
-    (∀ i : Fin 32, (unitType.getD i.val (9,9,9)).2.2 = i.val) ∧
-    (∀ i j : Fin 32, (unitType.getD i.val (9,9,9)).2.1 = (unitType.getD j.val (9,9,9)).2.1 → i = j) := by
-  decide +kernel
-
-/-- profile_idc → Profile → profile_idc is the identity on all 256 values -/
-theorem profile_roundtrip : profileRoundTrip.length = 256 ∧ ∀ b : Fin 256, profileRoundTrip.getD b.val 999 = b.val := by
-  decide +kernel
-
-def level (f l : Nat) : Nat × Nat := (levelRows.getD (levelRowIdx.getD f 99) []).getD l (999, 9)
-
-theorem level_rows : levelRowIdx.length = 256 ∧ levelRows.length = 2 ∧
-    (∀ f : Fin 256, levelRowIdx.getD f.val 99 = f.val / 16 % 2) ∧
-    (∀ l : Fin 256, (levelRows.getD 0 []).getD l.val (999,9) = (l.val, 0)) ∧
-    (∀ l : Fin 256, (levelRows.getD 1 []).getD l.val (999,9) = (l.val, if l.val = 11 then 1 else 0)) := by
-  decide +kernel
-
-/-- all 2¹⁶ (flags, level_idc) pairs: the idc is recovered; level 1b ⇔ idc 11 ∧ constraint flag 3 -/
-theorem level_roundtrip (f l : Fin 256) :
-    (level f.val l.val).1 = l.val ∧ ((level f.val l.val).2 = 1 ↔ (l.val = 11 ∧ f.val / 16 % 2 = 1)) := by
-  obtain ⟨_, _, hidx, h0, h1⟩ := level_rows
-  unfold level
-  rw [hidx f]
-  have hb : f.val / 16 % 2 = 0 ∨ f.val / 16 % 2 = 1 := by omega
-  rcases hb with hb | hb
-  · rw [hb, h0 l]; simp [hb]
-  · rw [hb, h1 l]; by_cases h11 : l.val = 11 <;> simp [h11, hb]
-
-theorem id_wrappers : ∀ p ∈ idProbes,
-    p.2.1 = (if p.1 ≤ 31 then some p.1 else none) ∧ p.2.2 = (if p.1 ≤ 255 then some p.1 else none) := by
-  decide +kernel
-
-/-- T.35: named countries are exactly the codes 00…C4; FF is the extension escape; remainder offsets -/
-theorem t35_table : t35.length = 256 ∧ ∀ b : Fin 256,
-    t35.getD b.val (9,9) = (if b.val ≤ 0xC4 then (0, 1) else if b.val = 0xFF then (2, 2) else (1, 1)) := by
-  decide +kernel
-
-#print axioms level_roundtrip
-#print axioms t35_table
-end C20
+import H264.C20Hdr
+import H264.C20Prof
+import H264.C20Ids
+import H264.C20T35
+/-! (kept for the module name: the C20 graph theorems live in C20Hdr / C20Prof / C20Ids / C20T35) -/
